@@ -127,6 +127,9 @@ def conc_scenarios(tier, rng):
     scs.append({"init": zi, "progs": [[Match(1)], [Amend(1, 1)]]})
     scs.append({"init": [R(1, 1, 2, 0, 0, True), S(2, 2)], "progs": [[Match(2)], [Match(1)]]})
     scs.append({"init": [I(1, 0, 1), I(2, 0, 1), S(3, 1)], "progs": [[Match(1)], [Amend(2, 1), Amend(1, 1)]]})
+    # a reserve order that shows nothing but replenishes as soon as a match reaches it (hidden only)
+    scs.append({"init": [R(1, 0, 3, 0, 1, True), S(2, 1)], "progs": [[Match(1)], [Match(2)]]})
+    scs.append({"init": [R(1, 0, 2, 0, -1, True)], "progs": [[Match(1)], [Cancel(1)]]})
     # orders of size 0 (amended to 0 or added so): they weigh nothing in the counters but are in the book
     zero = [S(1, 2), S(2, 0)]
     scs.append({"init": zero, "progs": [[Match(2)], [Cancel(2)]]})
